@@ -1594,6 +1594,11 @@ FROM (
         if target_type_str == "String" and source_lower == "boolean":
             return _bool_to_str(expr)
 
+        if target_type_str == "String" and source_lower == "number":
+            # Number columns are stored as DECIMAL: go through DOUBLE so that a component
+            # prints like the scalar literal ("3.5", not "3.5000000000").
+            return f"CAST(CAST({expr} AS DOUBLE) AS VARCHAR)"
+
         if target_type_str == "Integer":
             if source_lower in ("boolean", "integer"):
                 return f"CAST({expr} AS {duckdb_type})"
